@@ -1,9 +1,12 @@
-/- line-protocol driver for C17: `drv_c17 hashmap` -/
+/- line-protocol driver for C17: `drv_c17 hashmap` (string keys, hashmap.c alone),
+   `drv_c17 hashmapx` (byte-string keys through the clients' key conventions) -/
 import ChibiVerif.Driver.HashMapCmd
+import ChibiVerif.Driver.C17ClientsCmd
 
 def main (args : List String) : IO UInt32 := do
   match args with
   | "hashmap" :: _ => ChibiVerif.Driver.hashmapMain
+  | "hashmapx" :: _ => ChibiVerif.Driver.hashmapxMain
   | _ =>
-    IO.eprintln "usage: drv_c17 hashmap"
+    IO.eprintln "usage: drv_c17 hashmap|hashmapx"
     return 2
